@@ -15,6 +15,7 @@ import (
 	"github.com/NethermindEth/juno/core"
 	"github.com/NethermindEth/juno/core/felt"
 	"github.com/NethermindEth/juno/db/memory"
+	"github.com/NethermindEth/juno/l1/eth"
 	"github.com/NethermindEth/juno/pruner"
 	"verif/harness/lib"
 )
@@ -31,6 +32,7 @@ type chain struct {
 	clean      bool   // drop storage entries that do not change the slot
 	noopBlocks []bool // per block: its diff names a storage slot it does not change
 	directed   int    // blocks with a same-address nonce update + class replacement
+	l1Mid      int    // blocks with an L1-handler transaction that is not the last of its block
 	// evAddr: an address that emitted at least one event on this chain (filtered event queries)
 	evAddr *felt.Felt
 
@@ -239,7 +241,31 @@ func (c *chain) next(plain bool) (*lib.Bundle, error) {
 		// (CompiledClassHashV2 is answered from the HEAD state by both history readers, by design: not a function of
 		// the block, so a node and a longer twin differ without any pruning — not compared)
 	}
-	b, err := g.Next(&lib.BlockSpec{Version: version, Diff: diff, Classes: classes})
+	spec := &lib.BlockSpec{Version: version, Diff: diff, Classes: classes}
+	if !plain && num%4 == 1 {
+		// directed: an L1-handler transaction that is NOT the last of its block, followed by ordinary transactions
+		// and a second L1 handler (the reverse-lookup buckets are rebuilt per transaction by the history-pruner
+		// migration's restorer: an index that drifts after an L1 handler shows only on the transactions behind it)
+		var l1s, others []core.Transaction
+		for tries := 0; tries < 400 && (len(l1s) < 2 || len(others) < 2); tries++ {
+			tx := g.GenTx(version)
+			if _, ok := tx.(*core.L1HandlerTransaction); ok {
+				if len(l1s) < 2 {
+					l1s = append(l1s, tx)
+				}
+			} else if len(others) < 2 {
+				others = append(others, tx)
+			}
+		}
+		if len(l1s) == 2 && len(others) == 2 {
+			for _, tx := range []core.Transaction{l1s[0], others[0], l1s[1], others[1]} {
+				spec.Txs = append(spec.Txs, tx)
+				spec.Rcs = append(spec.Rcs, g.GenReceipt(tx))
+			}
+			c.l1Mid++
+		}
+	}
+	b, err := g.Next(spec)
 	if err == nil && c.evAddr == nil {
 		for _, rc := range b.Block.Receipts {
 			if len(rc.Events) > 0 {
@@ -343,6 +369,9 @@ type world struct {
 	dirtyUpTo uint64
 	broken    bool // the scenario left the property's domain or the harness lost sync: stop comparing
 	held      []*heldR // historical readers opened earlier and kept (review.go)
+	// gated: the world runs a fast sample ticker; the harness' own Store / RevertHead close the tick gate of the
+	// pruner's store wrapper (hookdb.go) so that no sampleHeight runs across them (reorg.go)
+	gated bool
 	luQ       []luItem // ContractStorageLastUpdatedBlock answers of the current observation (lastupd.go)
 }
 
@@ -427,8 +456,8 @@ func newWorld(res *lib.Result, ch *chain, drv, fdrv *lib.Driver, fixed bool, mig
 }
 
 func (w *world) cfgLine() string {
-	return fmt.Sprintf("cfg %d %d %s %s %s %s %s %s %s", w.pcfg.Retained, w.pcfg.L2PerPrune, b01(w.cutoff > 0), b01(w.legacy()),
-		b01(w.fixed), b01(w.mig.SkipsMissing), b01(w.mig.ZeroNoop), b01(l2Clamps.Load()), b01(readerGuard.Load()))
+	return fmt.Sprintf("cfg %d %d %s %s %s %s %s %s %s %s", w.pcfg.Retained, w.pcfg.L2PerPrune, b01(w.cutoff > 0), b01(w.legacy()),
+		b01(w.fixed), b01(w.mig.SkipsMissing), b01(w.mig.ZeroNoop), b01(l2Clamps.Load()), b01(readerGuard.Load()), b01(sampleChecked.Load()))
 }
 
 // l2Clamps: the code under test ignores a new-head event for a block above the current head (detected, see
@@ -447,19 +476,33 @@ func (w *world) clock(cut uint64) {
 	if w.cutoff == 0 {
 		return
 	}
+	w.syncTs()
+	if o := w.ask(fmt.Sprintf("clock %d", cut)); o != "ok" && !w.broken {
+		w.harnessFailed("model driver rejects clock %d: %s", cut, o)
+	}
+}
+
+// tsLine: the header timestamps of the chain the world follows, as the model is told them.
+func (w *world) tsLine() string {
+	var sb strings.Builder
+	sb.WriteString("ts")
+	for _, b := range w.ch.g.Bundles {
+		fmt.Fprintf(&sb, " %d", b.Block.Timestamp)
+	}
+	return sb.String()
+}
+
+// syncTs tells the model the timestamps of the chain whenever it has grown or has been reorganised (the model
+// records a block's timestamp when the block is stored: before every store, not only before clock lines).
+func (w *world) syncTs() {
+	if w.cutoff == 0 || w.broken {
+		return
+	}
 	if n := len(w.ch.g.Bundles); n != w.tsSent {
-		var sb strings.Builder
-		sb.WriteString("ts")
-		for _, b := range w.ch.g.Bundles {
-			fmt.Fprintf(&sb, " %d", b.Block.Timestamp)
-		}
-		if o := w.ask(sb.String()); o != "ok" && !w.broken {
+		if o := w.ask(w.tsLine()); o != "ok" && !w.broken {
 			w.harnessFailed("model driver rejects the timestamps: %s", o)
 		}
 		w.tsSent = n
-	}
-	if o := w.ask(fmt.Sprintf("clock %d", cut)); o != "ok" && !w.broken {
-		w.harnessFailed("model driver rejects clock %d: %s", cut, o)
 	}
 }
 
@@ -625,7 +668,9 @@ func (w *world) store() bool {
 	b := w.ch.g.Bundles[n]
 	w.rec("store", uint64(n), "")
 	var err error
+	closed := w.quietBegin()
 	perr, panicked, _ := lib.Try(func() error { err = lib.StoreOn(w.node, b); return nil })
+	w.quietEnd(closed)
 	if serr := lib.StoreOn(w.shadow, b); serr != nil {
 		w.harnessFailed("shadow node: store %d: %v", n, serr)
 	}
@@ -636,6 +681,7 @@ func (w *world) store() bool {
 	} else if err != nil {
 		impl = "err"
 	}
+	w.syncTs()
 	m := w.ask("store")
 	w.res.Compared(1)
 	if m != impl {
@@ -660,7 +706,9 @@ func (w *world) revert() bool {
 	}
 	w.rec("revert", uint64(w.height), "")
 	var err error
+	closed := w.quietBegin()
 	perr, panicked, _ := lib.Try(func() error { err = w.node.RevertHead(); return nil })
+	w.quietEnd(closed)
 	if serr := w.shadow.RevertHead(); serr != nil {
 		w.harnessFailed("shadow node: revert %d: %v", w.height, serr)
 	}
@@ -703,6 +751,19 @@ func (w *world) writeL1(n uint64) {
 	w.res.Hit("op:writeL1")
 }
 
+func (w *world) quietBegin() bool {
+	if !w.gated || w.proc == nil {
+		return false
+	}
+	return w.proc.hdb.quietBegin()
+}
+
+func (w *world) quietEnd(closed bool) {
+	if closed && w.proc != nil {
+		w.proc.hdb.quietEnd()
+	}
+}
+
 // restart: the process ends (after a cancelled context, a kill, or an orderly stop between prunes)
 // and a new one starts on the same database.
 func (w *world) restart(why string) {
@@ -713,6 +774,21 @@ func (w *world) restart(why string) {
 	if w.proc != nil {
 		w.proc.stop()
 		w.proc = nil
+	}
+	if why == "orderly" || why == "after-cancel" {
+		// an orderly shutdown persists the running event filter (node.Run: WriteRunningEventFilter); the next
+		// process resumes from that snapshot (pruner.InitializeRunningEventFilter: caught up / same-window gap,
+		// clamped to the retention floor) instead of rebuilding. A kill does not.
+		var err error
+		perr, panicked, _ := lib.Try(func() error { err = w.node.WriteRunningEventFilter(); return nil })
+		if panicked {
+			err = perr
+		}
+		if err != nil {
+			w.violate("running-filter-snapshot-write-fails-"+w.situation, fmt.Sprintf("WriteRunningEventFilter at shutdown (head %d): %v", w.height, err))
+		} else {
+			w.res.Hit("restart:running-filter-snapshot-persisted")
+		}
 	}
 	w.openNode(true)
 	w.clock(w.procCutoff)
@@ -726,6 +802,32 @@ func (w *world) restart(why string) {
 	w.sampleTie("restart:" + why)
 	w.quiescent = true
 	w.res.Hit("op:restart:" + why)
+}
+
+// restartUnseeded: the node is started WITHOUT prune mode on the (pruned) database: Blockchain with the default,
+// unseeded RetentionFloor (readers probe header + hash->number mapping instead of the shared floor), no pruner
+// service. The model takes `crash 0`. Events are not delivered in such a process (w.proc is nil).
+func (w *world) restartUnseeded() {
+	if w.broken || w.node == nil {
+		return
+	}
+	w.rec("restart", 0, "without prune mode: unseeded retention floor, no pruner")
+	if w.proc != nil {
+		w.proc.stop()
+		w.proc = nil
+	}
+	w.floor = &pruner.RetentionFloor{}
+	w.node = lib.NodeOn(w.nodeDB, w.ch.g.Net, w.ch.newState, blockchain.WithRetentionFloor(w.floor),
+		blockchain.WithRunningEventFilterInitializer(pruner.InitializeRunningEventFilter))
+	w.clock(w.cutoffNow())
+	if o := w.ask("crash 0"); o != "ok" {
+		w.mismatch("restart", "unseeded", o, "ok")
+	}
+	if w.situation == "after-failed-write" {
+		w.situation = "after-crash-mid-prune"
+	}
+	w.quiescent = true
+	w.res.Hit("op:restart:unseeded-floor")
 }
 
 // prunePlan says what the harness does at the batch writes of the prune an event triggers.
@@ -1013,6 +1115,9 @@ func (w *world) fork(kind string, n, ts uint64, seq int) {
 			}
 		}
 	}
+	// and the database opened without prune mode (unseeded floor: header + hash->number probe)
+	f.restartUnseeded()
+	f.observe()
 }
 
 // ---------------------------------------------------------------------------------------------
@@ -1087,6 +1192,9 @@ func (w *world) observe() {
 				class, det := runPair(nc, w.ch.twinQuery(fmt.Sprintf("%s/%d/%v/%s", rq.Name, n, c.OnChain, tc.Arg), tc))
 				items = append(items, obsItem{model: rq.Model, real: rq.Name, n: uint64(n), arg: nc.Arg, class: class, det: det})
 			}
+		}
+		if b != nil {
+			w.txSelfObs(b, uint64(n))
 		}
 		if w.noState {
 			continue
@@ -1181,6 +1289,47 @@ func (w *world) observe() {
 	w.res.Hit("observe:" + w.situation)
 }
 
+// txSelfObs: every transaction of a block the node still has resolves BY HASH to ITSELF — block number, index
+// inside the block, content — and every L1-handler transaction's message hash to that transaction. Judged
+// against the generator's block, not against the twin's answer: the reverse-lookup buckets are rebuilt by the
+// history-pruner migration (restorer) and trimmed by the pruner; an entry that survives must point at its own
+// transaction. (Entries that are missing are judged by the retained-* / reported-floor-* clauses.)
+func (w *world) txSelfObs(b *lib.Bundle, n uint64) {
+	for i, tx := range b.Block.Transactions {
+		h := tx.Hash()
+		var bn, idx uint64
+		var got core.Transaction
+		var e1, e2 error
+		perr, panicked, _ := lib.Try(func() error {
+			bn, idx, e1 = w.node.BlockNumberAndIndexByTxHash((*felt.TransactionHash)(h))
+			got, e2 = w.node.TransactionByHash(h)
+			return nil
+		})
+		if panicked {
+			w.violate("tx-by-hash-panic-"+w.situation, fmt.Sprintf("transaction %d of block %d by hash: %v", i, n, perr))
+			continue
+		}
+		w.res.Hit("oracle:tx-resolves-to-itself")
+		switch {
+		case e1 == nil && (bn != n || idx != uint64(i)):
+			w.violate("tx-lookup-resolves-to-other-tx-"+w.situation, fmt.Sprintf(
+				"BlockNumberAndIndexByTxHash(hash of transaction %d of block %d) = (block %d, index %d): the lookup entry of a retained transaction points at ANOTHER transaction [block %d has %d transactions, head %d]",
+				i, n, bn, idx, n, len(b.Block.Transactions), w.height))
+		case e2 == nil && (got == nil || !got.Hash().Equal(h)):
+			w.violate("tx-lookup-resolves-to-other-tx-"+w.situation, fmt.Sprintf(
+				"TransactionByHash(hash of transaction %d of block %d) returns a transaction with another hash [block %d has %d transactions, head %d]",
+				i, n, n, len(b.Block.Transactions), w.height))
+		}
+		if l1, ok := tx.(*core.L1HandlerTransaction); ok {
+			mh := eth.HashFromBytes(l1.MessageHash())
+			if th, e3 := w.node.L1HandlerTxnHash(&mh); e3 == nil && !th.Equal(h) {
+				w.violate("l1-msg-lookup-resolves-to-other-tx-"+w.situation, fmt.Sprintf(
+					"L1HandlerTxnHash(message hash of L1-handler transaction %d of block %d) names another transaction", i, n))
+			}
+		}
+	}
+}
+
 func (w *world) oracle(items []obsItem, headClass, headDet string) {
 	sit := w.situation
 	if headClass != "ok" && headClass != "skipped" && w.height >= 0 {
@@ -1193,6 +1342,20 @@ func (w *world) oracle(items []obsItem, headClass, headDet string) {
 		w.violate("floor-above-bound-"+sit, fmt.Sprintf(
 			"oldest retained block %d is above min(L1 head %d, local head %d) - retained %d (min-age cap applied): highest floor the property allows is %d",
 			oldest, w.l1, w.height, w.pcfg.Retained, w.fspec))
+	}
+	// the min-age clause, directly: no block whose timestamp is at or after now - minAge has been pruned (the
+	// cut-off only advances: a block that is young NOW was young when it was deleted)
+	if w.cutoff > 0 && haveOldest {
+		cut := w.cutoffNow()
+		for n := uint64(0); n < oldest && int(n) <= w.height; n++ {
+			if ts := w.ts(n); ts >= cut {
+				w.violate("min-age-young-block-pruned-"+sit, fmt.Sprintf(
+					"block %d (timestamp %d) is younger than the minimum age (now - minAge = %d) and has been pruned: oldest retained block %d [head %d, L1 head %d, retained %d]",
+					n, ts, cut, oldest, w.height, w.l1, w.pcfg.Retained))
+				break
+			}
+		}
+		w.res.Hit("oracle:min-age-no-young-block-pruned")
 	}
 	if !haveOldest && w.height >= 0 {
 		w.violate("no-retained-block-"+sit, fmt.Sprintf("OldestRetainedBlock: %v with head %d", oerr, w.height))
